@@ -278,6 +278,7 @@ class Run:
         out.append(0 if res is None else (getattr(res, "k", -2) + 1))
         out.append(0 if exc is None else (getattr(exc, "k", -2) + 1))
         out.append(len(self.fake.invocations))
+        locs = thread_locals(self)  # batch_index / result / exception of each parked thread's frame of run()
         for rec in ctl.recs:
             p = rec.pending
             if rec.done or p is None:
@@ -286,7 +287,14 @@ class Run:
                 k = KIND.get(p[0], 99)
                 ob = OBJ.get(getattr(p[1], "name", None), 5) if len(p) > 1 and not isinstance(p[1], (int, bool)) else 4
                 tm = int(bool(p[2])) if p[0] in ("wait_begin", "wait_end") else 0
-            out += [k, ob, tm, int(bool(ctl.enabled_choices(rec.tid))), len(self.outs[rec.tid])]
+            loc = locs[rec.tid]
+            if loc is None:
+                lb, lr, le = 0, 0, 0
+            else:
+                lb = loc[2] if isinstance(loc[2], int) else 0
+                lr = 0 if loc[4] is None else loc[4] + 1
+                le = 0 if loc[5] is None else loc[5] + 1
+            out += [k, ob, tm, int(bool(ctl.enabled_choices(rec.tid))), lb, lr, le, len(self.outs[rec.tid])]
             for oc in self.outs[rec.tid]:
                 if oc[0] == "ok":
                     out += [1, -1 if oc[1] is None else oc[1], oc[2]]
@@ -334,7 +342,7 @@ def thread_locals(run: Run):
         if not rec.done and rec.pending is not None:
             fr = frames.get(rec.ident)
             while fr is not None:
-                if fr.f_code.co_name == "run" and fr.f_code.co_filename.endswith("mutex_primitives.py") and "acquired_both_locks" in fr.f_code.co_varnames:
+                if fr.f_code.co_name == "run" and fr.f_code.co_filename.endswith("mutex_primitives.py"):
                     lo = fr.f_locals
                     res, ex = lo.get("result"), lo.get("exception")
                     info = (fr.f_lineno, lo.get("executor"), lo.get("batch_index"), lo.get("acquired_both_locks"),
@@ -530,8 +538,12 @@ def oracle(run: Run, faults_injected=None):
         v.append(("C07", "overlap", f"invocation {fake.overlaps[0][0]} of the wrapped primitive began at step {fake.overlaps[0][1]} while another was between run() and result()"))
     # ---- C08 / C09: nobody hangs
     if run.status == "deadlock":
-        prop = "C09" if failed else "C08"
-        v.append((prop, "hang-after-failure" if failed else "deadlock",
+        # a hang belongs to C09 when the failure's traces are part of it (exception still stored, a lock still owned,
+        # members still waiting for the result); a hang with clean shared state is a C08 matter whatever failed earlier
+        f = run.final_fields
+        dirty = bool(failed) and (f["exception_set"] or any(o is not None for o in f["owners"].values()) or bool(f["waiters"]["I"]))
+        prop = "C09" if dirty else "C08"
+        v.append((prop, "hang-after-failure" if dirty else "deadlock",
                   f"no thread can take a step but calls are unfinished: pending {run.pending_at_end}, lock owners {run.final_fields['owners']}, wait sets {run.final_fields['waiters']}"))
     if run.status == "limit":
         v.append(("C09" if failed else "C08", "step-limit", f"run did not finish within {STEP_LIMIT} steps under a fair random schedule"))
@@ -640,8 +652,38 @@ def model_traces(cases, variant):
     return res
 
 
+LOCAL_NAMES = ("batch_index", "result", "exception")
+
+
+def locals_comparable():
+    """The frame locals are compared only while run() still calls them batch_index / result / exception (a renaming is a
+    behaviour-preserving rewrite: then these three fields are masked on both sides and the fact is noted)."""
+    code = mp_module().BatchingMutexPrimitiveJobRunner.run.__code__
+    return all(n in code.co_varnames for n in LOCAL_NAMES)
+
+
+def mask_locals(enc):
+    """Zero the (batch_index, result, exception) fields of every thread in an encoded state."""
+    if not enc:
+        return enc
+    e = list(enc)
+    p = 4
+    p += 1 + e[p]
+    p += 1 + e[p]
+    p += 3
+    p += 1 + e[p]
+    p += 3
+    while p < len(e):
+        e[p + 4] = e[p + 5] = e[p + 6] = 0
+        p += 8 + 3 * e[p + 7]
+    return e
+
+
 def compare(run: Run, model):
     """First disagreement between the implementation's per-step states and the model's, or None."""
+    if not locals_comparable():
+        run.trace = [mask_locals(x) for x in run.trace]
+        model = dict(model, init=mask_locals(model["init"]), steps=[mask_locals(x) for x in model["steps"]])
     if run.trace[0] != model["init"]:
         return dict(step=-1, impl=run.trace[0], model=model["init"])
     for i, (a, b) in enumerate(zip(run.trace[1:], model["steps"])):
@@ -861,6 +903,13 @@ class Explorer:
         self.corr_bad = 0
         self.steps = 0
         self.variant = None
+        self.buffer = []  # oracle violations of this property; reported shortest schedule first
+
+    def report(self):
+        """Emit the buffered oracle violations, shortest witness first (check.py reports the first case of each key)."""
+        for n, _, key, what, case, detail in sorted(self.buffer, key=lambda x: (x[0], x[1])):
+            self.ctx.violation("oracle", key, what, case, detail=detail)
+        self.buffer = []
 
     def account(self, run, origin):
         ctx = self.ctx
@@ -878,7 +927,8 @@ class Explorer:
         for prop, key, what in oracle(run):
             if prop == self.pid:
                 mine = True
-                ctx.violation("oracle", key, what, case_of(run, origin=origin), detail=dict(pending=run.pending_at_end, fields=run.final_fields, invocations=run.fake.invocations, status=run.fake.status))
+                self.buffer.append((len(run.schedule), len(self.buffer), key, what, case_of(run, origin=origin),
+                                    dict(pending=run.pending_at_end, fields=run.final_fields, invocations=run.fake.invocations, status=run.fake.status)))
             else:
                 self.other[f"{prop}:{key}"] = self.other.get(f"{prop}:{key}", 0) + 1
         self.pending_model.append(run)
@@ -938,8 +988,12 @@ def run_property(ctx, pid):
     faults = ex.faults
     pf = 0.3 if faults else 0.0
     ewt = detect_variant()
+    if ewt is None:  # the probe schedule did not reach the retry wait: compare with HEAD's variant
+        ctx.notes["variant_probe"] = "the probe schedule did not reach the external wait; assuming the timed variant"
+        ewt = True
     ex.variant = (1 if ewt else 0, 1)
     ctx.notes["implementation_variant"] = dict(ext_wait_timed=ewt)
+    ctx.notes["frame_locals_compared"] = locals_comparable()
     ctx.rule = RULES[pid] + ("2-4 threads x 1-3 consecutive calls x 0-3 uniquely tagged pubs, with and without batch_waiting_duration; complete DFS over all controller choices "
                              "(thread, notified waiter, timeout, failure) for 2 threads x 1 call; random, contention-biased and freeze-one-thread schedules; wrapper level through Qiskit PrimitiveJob threads; "
                              "distinct = distinct (configuration, schedule); non-trivial = at least 2 threads and 20 steps")
@@ -997,6 +1051,7 @@ def run_property(ctx, pid):
         cfg = dict(level=rng.choice(["sampler", "estimator"]), linger=rng.choice([0, 1]), calls=gen_calls(rng, nthreads=rng.choice([2, 3]), max_calls=2))
         ex.account(execute(cfg, random_policy(rng, p_fail=pf), faults=faults), "wrapper")
     ex.flush()
+    ex.report()
     ctx.notes["steps_executed"] = ex.steps
     ctx.notes["alarms_of_sibling_properties_seen"] = ex.other
     return ex
@@ -1095,9 +1150,10 @@ def replay_property(ctx, pid, payload):
         print("status:", run.status, "overlaps:", run.fake.overlaps, "pending:", run.pending_at_end)
         return
     ewt = detect_variant()
+    ewt = True if ewt is None else ewt
     run = execute(c["cfg"], replay_policy(c["schedule"]), faults=True)
     print("configuration:", json.dumps(c["cfg"]))
-    print("replayed steps:", len(run.schedule), "of", len(c["schedule"]), "status:", run.status if run.status != "stopped" else ("deadlock" if not run.ctl.transitions(True) and False else "end of schedule"))
+    print("replayed steps:", len(run.schedule), "of", len(c["schedule"]), "status:", {"stopped": "end of schedule reached", "diverged": "the next scheduled operation is not enabled here (the implementation behaves differently from the recorded run)"}.get(run.status, run.status))
     print("pending operations at the end:", run.pending_at_end)
     print("shared fields at the end:", run.final_fields)
     print("invocations:", run.fake.invocations, "status:", run.fake.status)
